@@ -15,7 +15,8 @@ from .common import Scenario, elems, shape, mk_array, run_property, assume_not_n
 from .c03 import _norm, _same
 from .c01 import OPS
 
-STEPS = ["open_close"] + [o for o in OPS if o != "reopen"]
+STEPS = ["open_close"] + [o for o in OPS if o not in ("reopen", "move_data", "foreign_membership", "create_deferred")] + \
+        ["retype_data", "add_boolean_of_existing_type", "add_data_of_existing_type"]
 
 
 def digest(h5file, store, prefixes):
@@ -96,15 +97,26 @@ class FrameStep(Scenario):
         t1 = p.add_data({"T1": {"values": "unrelated text", "type": "text", "association": "OBJECT"}})
         i1 = p.add_data({"I1": {"values": real_np.array([3, 4], dtype="int32"), "type": "referenced", "value_map": {3: "three", 4: "four"}}})
         p.find_or_create_property_group(name="PGP", properties=[s1.uid])
-        uid = {"g": g.uid, "h": h.uid, "o": o.uid, "d1": d1.uid, "d2": d2.uid, "k": k.uid, "p": p.uid, "s1": s1.uid, "t1": t1.uid, "i1": i1.uid}
+        # unrelated entities that SHARE something with the target: a data of the same type as D1, a boolean with a relabelled map,
+        # and an object stored under an object
+        s2 = p.add_data({"S2": {"values": real_np.arange(2.0) + 7, "entity_type": d1.entity_type}})
+        b1 = p.add_data({"B1": {"values": real_np.array([True, False]), "type": "boolean"}})
+        b1.entity_type.value_map = {0: "Unknown", 1: "Ore"}
+        import warnings
+        with warnings.catch_warnings():
+            warnings.simplefilter("ignore")
+            q = Points.create(ws, vertices=real_np.arange(3.0).reshape(1, 3), name="Q", parent=p)
+        uid = {"g": g.uid, "h": h.uid, "o": o.uid, "d1": d1.uid, "d2": d2.uid, "k": k.uid, "p": p.uid, "s1": s1.uid, "t1": t1.uid, "i1": i1.uid, "s2": s2.uid, "b1": b1.uid, "q": q.uid}
         fmt = lambda u: "{" + str(u) + "}"        # noqa: E731
         unrelated = [f"/GEOSCIENCE/Groups/{fmt(k.uid)}", f"/GEOSCIENCE/Objects/{fmt(p.uid)}"] + \
-                    [f"/GEOSCIENCE/Data/{fmt(x.uid)}" for x in (s1, t1, i1)] + \
-                    [f"/GEOSCIENCE/Types/Data types/{fmt(x.entity_type.uid)}" for x in (s1, t1, i1)] + \
+                    [f"/GEOSCIENCE/Objects/{fmt(q.uid)}"] + \
+                    [f"/GEOSCIENCE/Data/{fmt(x.uid)}" for x in (s1, t1, i1, s2, b1)] + \
+                    [f"/GEOSCIENCE/Types/Data types/{fmt(x.entity_type.uid)}" for x in (s1, t1, i1, s2, b1)] + \
                     [f"/GEOSCIENCE/Types/Group types/{fmt(k.entity_type.uid)}"]
         header_attrs = ["Contributors", "Distance unit", "GA Version", "Version"]
         ws.close()
-        del g, h, o, d1, d2, k, p, s1, t1, i1
+        del g, h, o, d1, d2, k, p, s1, t1, i1, s2, b1, q
+        genesis = set(digest(ws.h5file, {}, unrelated))     # what the creating session left in the file
         with self.engine(cx) as X:
             ws = Workspace(ws.h5file)
 
@@ -166,6 +178,21 @@ class FrameStep(Scenario):
                     o.cells = mk_array(X, [cx.int(f"c{i}", 0, 3) for i in range(4)], (2, 2), "int32")
                 elif step == "remove_cells":
                     o.remove_cells([cx.int("rc", 0, 2)])
+                elif step == "modify_vertices":
+                    arr = o.vertices
+                    arr[0, 2] = cx.real("z")
+                    o.vertices = arr
+                elif step == "empty_group":
+                    o.find_or_create_property_group(name="empty")
+                elif step == "retype_data":             # D1 shares its type with the unrelated S2
+                    get("d1").entity_type = get("d2").entity_type if False else get("s1").entity_type
+                elif step == "add_boolean_of_existing_type":
+                    o.add_data({"B2": {"values": mk_array(X, [True, False, True], (3,), "bool"), "type": "boolean",
+                                       "entity_type": get("b1").entity_type}})
+                elif step == "add_data_of_existing_type":
+                    nv = [cx.real(f"a{i}") for i in range(3)]
+                    assume_not_ndv(cx, nv)
+                    o.add_data({"D4": {"values": mk_array(X, nv, (3,), "float64"), "entity_type": get("s1").entity_type}})
                 elif step == "modify_values":
                     arr = get("d1").values
                     y = cx.real("y")
@@ -180,8 +207,11 @@ class FrameStep(Scenario):
             ws.h5file.seek(0)
             with _h.File(ws.h5file, "r") as f:
                 hdr_after = {a: _norm(f["GEOSCIENCE"].attrs[a]) for a in header_attrs if a in f["GEOSCIENCE"].attrs}
+            cx.prove(genesis <= set(before) and genesis <= set(after),
+                     f"[{step}] every node and attribute the creating session wrote for the unrelated entities is still there after the "
+                     f"later sessions ({len(genesis - set(after))} missing)", "unrelated nodes")
             cx.prove(set(after) == set(before), f"[{step}] the unrelated entities keep exactly their nodes and attributes "
-                                                f"({sorted(set(after) ^ set(before))[:3]})", "unrelated nodes")
+                                                f"({len(set(after) ^ set(before))} differ)", "unrelated nodes")
             for key, val in before.items():
                 if key in after:
                     short = key.split("/GEOSCIENCE/")[-1]
@@ -208,6 +238,7 @@ def main(tier, seed):
         outside=["operations on other entity classes; sequences (C01); reachable states other than this tree", "byte-level identity of the file "
                  "(HDF5 free-space and modification times are not compared)"],
         bounds="one step from {open and close only, set vertices, set values, rename, move, copy, remove a vertex, remove data, add data, "
-               "property-group membership, remove object, set flags, set cells, remove a cell, modify values in place} on a point set and a curve",
+               "property-group membership, remove object, set flags, set cells, remove a cell, modify values / vertices in place, empty property "
+               "group, give a data another (existing) type, add boolean / float data of an existing type} on a point set and a curve",
         expected_outcomes={"FrameStep": {"ok"}},
     )
